@@ -1484,3 +1484,4 @@ example :
        (["G90"], {}, []), (["G0"], ⟨none, some 5, none⟩, []), (["G91"], {}, []), (["G90"], {}, []),
        (["M05"], {}, []), (["M09"], {}, []), ([], {}, []), (["M00"], {}, [])] ∧
     (GscribModel.MotionTie.srcRun (absB {}) [] ops).1._current_axes = ⟨some 1, some 5, some 0⟩ := by decide +kernel
+
